@@ -8,17 +8,31 @@
   (and the same scale) on every input as the original.  Every quantizer name in the public
   registry resolves to the class of that name.
 
-  The unchanged code violates the first sentence: 20 (class, option) pairs are not emitted by
-  `get_config` and `quantized_hswish` cannot be rebuilt at all.  What holds is proved as
-  `C09_same_function_partial` (hypothesis `Serializable`: every option that `get_config` forgets
-  is at its default); the complement is explicit — `C09_dropped_fields_*` lists exactly which
-  options are forgotten, `C09_dropped_field_reset` shows every forgotten option comes back as
-  its default for EVERY instance, and `C09_dropped_field_counterexample_*` /
-  `C09_hswish_from_config_error` are the witnesses replayed on the real code.
+  History.  The tree this check was first built on violated the first sentence: 20 (class,
+  option) pairs were not emitted by `get_config` and `quantized_hswish` could not be rebuilt at
+  all.  The fix round repaired every one of them in the library (notes/C09.md, "Fix round");
+  the model below mirrors the repaired `get_config`s and the former `_counterexample` theorems
+  are now regression witnesses (`C09_*_fixed_witness`) evaluated at the old failing inputs.
+
+  What is proved now, for ALL instances of ALL 14 classes (`quantized_hswish` included):
+    * `C09_rebuild_succeeds`  — every route rebuilds every constructed quantizer (no exception);
+    * `C09_roundtrip_fields`  — the rebuilt instance holds the original value under every key;
+    * `C09_same_function`     — the rebuilt instance has the same class and the same value of
+      every constructor option except possibly `var_name` / `use_variables`; hence every function
+      of the instance that does not read those two build-only options (outputs, scale,
+      gradients) coincides.  This is unconditional.
+    * `C09_same_instance_partial` — the rebuilt instance is EQUAL to the original exactly when
+      `var_name` / `use_variables` are at their defaults (`C09_serializable_necessary`).
+      `_partial` because those two options are still not serialised: `var_name` only names the
+      `tf.Variable`s a quantizer creates and `use_variables` only decides whether its state is
+      held in variables; neither changes an output (assumption, exercised by the tie) and
+      neither was part of the recorded findings.  For the 8 classes without these options the
+      equality is unconditional (`C09_same_instance`).
+    * `C09_dropped_fields_*`  — the complete list of options `get_config` does not emit.
 
   "Same function": an instance is the class plus the stored value of every constructor
-  argument; the rebuilt instance is shown EQUAL to the original, so any function of the
-  instance (outputs, scale, gradients) coincides (`C09_same_function_partial`, last conjunct).
+  argument; `__call__` itself is not modelled (it is C01–C08), so sameness is proved for every
+  function `apply` of the instance (`IgnoresBuildOnly apply` for the unconditional statement).
 
   This file holds ONLY property theorems and non-vacuity examples.
   Model: QKV.Model.PyVal / QKV.Model.Config.
@@ -69,250 +83,347 @@ theorem C09_serialize_dict (q : Q) : rebuildViaGetQuantizer q = rebuildDirect q 
 /-! ## what the round trip preserves, for every instance of every class -/
 
 private theorem rebuilt_form {q q' : Q} (h : rebuildDirect q = .ok q') :
-    q.cls ≠ .quantized_hswish ∧ q' = ⟨q.cls, normInit q.cls (forget q.cls q.env)⟩ := by
+    q' = ⟨q.cls, normInit q.cls (forget q.cls q.env)⟩ := by
   unfold rebuildDirect at h
   rw [fromConfig_getConfig] at h
-  cases hc : cfgClosed q.cls
-  · rw [hc] at h; cases h
-  · rw [hc] at h
-    exact ⟨(cfgClosed_iff _).1 hc, (init_ok_inv h).2⟩
-
-private theorem serialised_sub {c : Cls} (hc : c ≠ .quantized_hswish) {k : String}
-    (h : k ∈ serialised c) : k ∈ paramNames c := by
-  have := (cfgClosed_iff c).2 hc
-  simp only [cfgClosed, List.all_eq_true] at this
-  simpa using this k h
+  exact (init_ok_inv h).2
 
 private theorem norm_eq_self {c : Cls} (h1 : c ≠ .quantized_bits) (h2 : c ≠ .quantized_hswish)
     (e : Env) : normInit c e = e := by
   cases c <;> first | rfl | exact absurd rfl h1 | exact absurd rfl h2
 
-private theorem forget_keys (c : Cls) (e : Env) : (forget c e).keys = paramNames c := by
-  simp [forget, Env.keys, paramNames, List.map_map, Function.comp_def]
+/-- **Rebuilding succeeds.**  For every class (since the fix round also `quantized_hswish`)
+    and every constructed instance, `cls.from_config(q.get_config())` and
+    `get_quantizer({"class_name", "config"})` return a quantizer instead of raising: the emitted
+    keys are constructor parameters and the constructor's argument checks read serialised
+    options only. -/
+theorem C09_rebuild_succeeds (q : Q) (hr : Reachable q) :
+    ∃ q', rebuildDirect q = .ok q' ∧ rebuildViaGetQuantizer q = .ok q' := by
+  obtain ⟨args, kw, hcon⟩ := hr
+  obtain ⟨-, -, hfix⟩ := construct_fixed hcon
+  have hchk : check q.cls q.env = none := (init_ok_inv hfix).1
+  have h1 : rebuildDirect q = .ok ⟨q.cls, normInit q.cls (forget q.cls q.env)⟩ := by
+    unfold rebuildDirect
+    rw [fromConfig_getConfig]
+    unfold init
+    rw [check_forget, hchk]
+  exact ⟨_, h1, (C09_serialize_dict q).trans h1⟩
 
-/-- Round trip preserves every serialised field: if rebuilding succeeds, the rebuilt
-    quantizer is of the same class and stores, under every key `get_config` emitted, the
-    value the original stored. -/
+/-- Round trip preserves every serialised field: the rebuilt quantizer is of the same class and
+    stores, under every key `get_config` emitted, the value the original stored (this includes
+    the `alpha` → `symmetric` normalisation of `quantized_bits` / `quantized_hswish`). -/
 theorem C09_roundtrip_fields (q q' : Q) (hr : Reachable q) (h : rebuildDirect q = .ok q') :
     q'.cls = q.cls ∧ ∀ k ∈ serialised q.cls, q'.get k = q.get k := by
-  obtain ⟨hc, rfl⟩ := rebuilt_form h
+  have hq' := rebuilt_form h
+  subst hq'
   refine ⟨rfl, fun k hk => ?_⟩
-  have hkp := serialised_sub hc hk
+  have hkp := serialised_sub hk
   obtain ⟨args, kw, hcon⟩ := hr
   obtain ⟨-, hkeys, hfix⟩ := construct_fixed hcon
   show (normInit q.cls (forget q.cls q.env)).get k = q.env.get k
-  by_cases hb : q.cls = .quantized_bits
-  · have halpha : (forget q.cls q.env).get "alpha" = q.env.get "alpha" :=
-      forget_get_serialised hc _ (by rw [hb]; decide) (by rw [hb]; decide)
-    have hnq : q.env = normInit q.cls q.env := by
-      have := (init_ok_inv hfix).2
-      exact congrArg Q.env this
-    rw [hb] at hnq ⊢
-    simp only [normInit] at hnq ⊢
-    rw [hb] at halpha hkeys hkp hk
+  -- the two classes whose constructor rewrites `symmetric` when `alpha` is a string
+  have hsym : ∀ c : Cls, q.cls = c → (c = .quantized_bits ∨ c = .quantized_hswish) →
+      (normInit c (forget c q.env)).get k = q.env.get k := by
+    intro c hc hcase
+    subst hc
+    have hal : "alpha" ∈ paramNames q.cls ∧ "alpha" ∈ serialised q.cls ∧
+        "symmetric" ∈ paramNames q.cls := by
+      rcases hcase with h | h <;> rw [h] <;> decide
+    have halpha : (forget q.cls q.env).get "alpha" = q.env.get "alpha" :=
+      forget_get_serialised _ hal.1 hal.2.1
+    have hnq : q.env = normInit q.cls q.env := congrArg Q.env (init_ok_inv hfix).2
+    have hnorm : ∀ e : Env, normInit q.cls e =
+        if (e.get "alpha").isStr then e.set "symmetric" (.bool true) else e := by
+      intro e; rcases hcase with h | h <;> rw [h] <;> rfl
+    rw [hnorm] at hnq ⊢
     rw [halpha]
     by_cases hs : (q.env.get "alpha").isStr = true
     · simp only [hs, if_true] at hnq ⊢
       by_cases hksym : k = "symmetric"
       · subst hksym
-        rw [Env.get_set_self (by rw [forget_keys]; decide)]
-        rw [hnq, Env.get_set_self (by rw [hkeys]; decide)]
+        rw [Env.get_set_self (by rw [forget_keys]; exact hal.2.2)]
+        rw [hnq, Env.get_set_self (by rw [hkeys]; exact hal.2.2)]
       · rw [Env.get_set_ne hksym]
-        exact hb ▸ forget_get_serialised hc _ (hb ▸ hkp) (hb ▸ hk)
+        exact forget_get_serialised _ hkp hk
     · simp only [hs]
-      exact hb ▸ forget_get_serialised hc _ (hb ▸ hkp) (hb ▸ hk)
-  · rw [norm_eq_self hb hc]
-    exact forget_get_serialised hc _ hkp hk
+      exact forget_get_serialised _ hkp hk
+  by_cases hb : q.cls = .quantized_bits
+  · exact hsym _ rfl (Or.inl hb)
+  · by_cases hh : q.cls = .quantized_hswish
+    · exact hsym _ rfl (Or.inr hh)
+    · rw [norm_eq_self hb hh]
+      exact forget_get_serialised _ hkp hk
 
-/-- Every option `get_config` forgets comes back as the constructor default, whatever value
-    the original held: this is the exact statement of the defect for all instances. -/
+/-- Every option `get_config` does not emit comes back as the constructor default, whatever
+    value the original held (after the fix round these are `var_name` / `use_variables` only,
+    see `C09_dropped_build_only`). -/
 theorem C09_dropped_field_reset (q q' : Q) (h : rebuildDirect q = .ok q') :
     ∀ k ∈ dropped q.cls, q'.get k = defaultOf q.cls k := by
-  obtain ⟨hc, rfl⟩ := rebuilt_form h
+  have hq' := rebuilt_form h
+  subst hq'
   intro k hk
   show (normInit q.cls (forget q.cls q.env)).get k = _
-  by_cases hb : q.cls = .quantized_bits
-  · have hne : k ≠ "symmetric" := by
-      rintro rfl
-      have := (mem_dropped.1 hk).2
-      rw [hb] at this; exact this (by decide)
-    rw [hb]
-    simp only [normInit]
-    split
-    · rw [Env.get_set_ne hne]; exact hb ▸ forget_get_dropped _ hk
-    · exact hb ▸ forget_get_dropped _ hk
-  · rw [norm_eq_self hb hc]; exact forget_get_dropped _ hk
+  have hne : k ≠ "symmetric" := by
+    rintro rfl
+    have h2 := (mem_dropped.1 hk).2
+    have h1 := (mem_dropped.1 hk).1
+    revert h1 h2
+    cases q.cls <;> decide
+  have hnorm : (normInit q.cls (forget q.cls q.env)).get k = (forget q.cls q.env).get k := by
+    cases hc : q.cls <;> simp only [normInit] <;>
+      first
+        | rfl
+        | (split
+           · exact Env.get_set_ne hne _ _
+           · rfl)
+  rw [hnorm]
+  exact forget_get_dropped _ hk
 
-/-- **Same function (partial).**  For every class except `quantized_hswish`, a constructed
-    quantizer all of whose forgotten options are at their defaults is rebuilt — by all three
-    routes — as an instance with identical class and identical stored arguments; hence every
-    function of the instance (outputs, scale) is the same. -/
-theorem C09_same_function_partial (q : Q) (hr : Reachable q) (hc : q.cls ≠ .quantized_hswish)
-    (hs : Serializable q) :
+/-! ## the options that are still not serialised -/
+
+/-- options that only concern how a quantizer creates its `tf.Variable`s -/
+def buildOnly : List String := ["var_name", "use_variables"]
+
+/-- the only constructor options `get_config` does not emit are `var_name` / `use_variables` -/
+theorem C09_dropped_build_only (c : Cls) : ∀ k ∈ dropped c, k ∈ buildOnly := by
+  cases c <;> decide
+
+/-- the six classes that take `var_name` / `use_variables` drop exactly these two … -/
+theorem C09_dropped_fields_variables (c : Cls)
+    (h : c ∈ [Cls.quantized_linear, .quantized_bits, .quantized_relu, .quantized_po2,
+              .quantized_relu_po2, .quantized_hswish]) :
+    dropped c = ["var_name", "use_variables"] := by
+  simp only [List.mem_cons, List.mem_nil_iff, or_false] at h
+  rcases h with rfl | rfl | rfl | rfl | rfl | rfl <;> decide
+
+/-- … and the other eight classes serialise every constructor argument -/
+theorem C09_dropped_fields_none (c : Cls)
+    (h : c ∈ [Cls.bernoulli, .ternary, .stochastic_ternary, .binary, .stochastic_binary,
+              .quantized_ulaw, .quantized_tanh, .quantized_sigmoid]) : dropped c = [] := by
+  simp only [List.mem_cons, List.mem_nil_iff, or_false] at h
+  rcases h with rfl | rfl | rfl | rfl | rfl | rfl | rfl | rfl <;> decide
+
+/-! ## same function -/
+
+/-- `apply` (outputs, scale, gradient, … of a quantizer instance) does not read the two
+    build-only options: instances of the same class that agree on every other stored option are
+    mapped to the same value -/
+def IgnoresBuildOnly {α : Type} (apply : Q → α) : Prop :=
+  ∀ a b : Q, a.cls = b.cls → (∀ k, k ∉ buildOnly → a.get k = b.get k) → apply a = apply b
+
+/-- **Same function.**  Every constructed quantizer of every class is rebuilt — directly, and
+    through the dictionary route; the Keras pair resolves the class name and calls
+    `from_config`, i.e. is the direct route — into an instance of the same class that stores the
+    same value for EVERY constructor option other than `var_name` / `use_variables`; hence every
+    function of the instance that ignores those two options is the same. -/
+theorem C09_same_function (q : Q) (hr : Reachable q) :
+    ∃ q', rebuildDirect q = .ok q' ∧ rebuildViaGetQuantizer q = .ok q' ∧ q'.cls = q.cls ∧
+      (∀ k, k ∉ buildOnly → q'.get k = q.get k) ∧
+      ∀ {α : Type} (apply : Q → α), IgnoresBuildOnly apply → apply q' = apply q := by
+  obtain ⟨q', h1, h2⟩ := C09_rebuild_succeeds q hr
+  obtain ⟨hcls, hser⟩ := C09_roundtrip_fields q q' hr h1
+  have hkeys' : q'.env.keys = paramNames q.cls := by
+    rw [rebuilt_form h1]
+    show (normInit q.cls (forget q.cls q.env)).keys = _
+    rw [norm_keys, forget_keys]
+  have hkeys : q.env.keys = paramNames q.cls := by
+    obtain ⟨args, kw, hcon⟩ := hr
+    exact (construct_fixed hcon).2.1
+  have hget : ∀ k, k ∉ buildOnly → q'.get k = q.get k := by
+    intro k hk
+    by_cases hp : k ∈ paramNames q.cls
+    · by_cases hs : k ∈ serialised q.cls
+      · exact hser k hs
+      · exact absurd (C09_dropped_build_only q.cls k (mem_dropped.2 ⟨hp, hs⟩)) hk
+    · -- not a constructor option of the class: absent on both sides
+      have h0 : ∀ e : Env, e.keys = paramNames q.cls → e.get k = .none := by
+        intro e he
+        unfold Env.get
+        rw [lookup_none_of_not_mem (by rw [← he] at hp; exact hp)]
+        rfl
+      show q'.env.get k = q.env.get k
+      rw [h0 _ hkeys', h0 _ hkeys]
+  exact ⟨q', h1, h2, hcls, hget, fun apply ha => ha q' q hcls hget⟩
+
+/-- **Same instance (partial).**  A constructed quantizer whose `var_name` / `use_variables`
+    are at their defaults is rebuilt — by all routes — as an instance EQUAL to the original;
+    hence every function whatsoever of the instance is the same.  `_partial`: the hypothesis
+    cannot be dropped because these two options are not serialised
+    (`C09_serializable_necessary`, `C09_build_only_not_restored_witness`). -/
+theorem C09_same_instance_partial (q : Q) (hr : Reachable q) (hs : Serializable q) :
     rebuildDirect q = .ok q ∧ rebuildViaGetQuantizer q = .ok q ∧
       ∀ {α : Type} (apply : Q → α) (q' : Q), rebuildDirect q = .ok q' → apply q' = apply q := by
   obtain ⟨args, kw, hcon⟩ := hr
   obtain ⟨-, hkeys, hfix⟩ := construct_fixed hcon
   have h1 : rebuildDirect q = .ok q := by
     unfold rebuildDirect
-    rw [fromConfig_getConfig, (cfgClosed_iff _).2 hc, if_pos rfl, forget_eq_self hc hkeys hs]
+    rw [fromConfig_getConfig, forget_eq_self hkeys hs]
     exact hfix
   refine ⟨h1, (C09_serialize_dict q).trans h1, ?_⟩
   intro α apply q' h'
   rw [h1] at h'
   cases h'; rfl
 
-/-- `Serializable` is exactly what is needed: a rebuilt quantizer equal to the original
-    forces every forgotten option to be at its default. -/
+/-- for the eight classes without `var_name` / `use_variables` the rebuilt instance is equal to
+    the original unconditionally -/
+theorem C09_same_instance (q : Q) (hr : Reachable q)
+    (hc : q.cls ∈ [Cls.bernoulli, .ternary, .stochastic_ternary, .binary, .stochastic_binary,
+                   .quantized_ulaw, .quantized_tanh, .quantized_sigmoid]) :
+    rebuildDirect q = .ok q ∧ rebuildViaGetQuantizer q = .ok q := by
+  have hs : Serializable q := by
+    intro k hk
+    rw [C09_dropped_fields_none q.cls hc] at hk
+    cases hk
+  exact ⟨(C09_same_instance_partial q hr hs).1, (C09_same_instance_partial q hr hs).2.1⟩
+
+/-- `Serializable` is exactly what is needed for equality of instances: a rebuilt quantizer
+    equal to the original forces every non-emitted option to be at its default. -/
 theorem C09_serializable_necessary (q : Q) (h : rebuildDirect q = .ok q) : Serializable q :=
   fun k hk => C09_dropped_field_reset q q h k hk
 
-/-- `quantized_hswish.from_config(q.get_config())` raises `TypeError` for EVERY instance:
-    the inherited `get_config` emits `keep_negative` and `post_training_scale`, which
-    `quantized_hswish.__init__` does not accept. -/
-theorem C09_hswish_from_config_error (q : Q) (h : q.cls = .quantized_hswish) :
-    rebuildDirect q = .error .typeError ∧ rebuildViaGetQuantizer q = .error .typeError := by
-  have h1 : rebuildDirect q = .error .typeError := by
-    unfold rebuildDirect
-    rw [fromConfig_getConfig, h]; rfl
-  exact ⟨h1, (C09_serialize_dict q).trans h1⟩
+/-! ## regression witnesses: the former counterexamples, evaluated at the old failing inputs -/
 
-/-! ## the forgotten options, class by class (complete list; anything else is serialised) -/
+/-- constructing `cls(k = v, **extra)` and rebuilding it from its own config succeeds and gives
+    back an instance equal to the original (in particular the same stored value for `k`) -/
+def KeepsField (c : Cls) (k : String) (v : PyVal) (extra : Env := []) : Prop :=
+  ∃ q, construct c [] ((k, v) :: extra) = .ok q ∧ q.get k = v ∧ rebuildDirect q = .ok q ∧
+    rebuildViaGetQuantizer q = .ok q
 
-theorem C09_dropped_fields_quantized_linear :
-    dropped .quantized_linear = ["scale_axis", "var_name", "use_variables"] := by decide
-theorem C09_dropped_fields_quantized_bits :
-    dropped .quantized_bits = ["scale_axis", "var_name", "use_ste", "use_variables",
-      "elements_per_scale", "min_po2_exponent", "max_po2_exponent"] := by decide
-theorem C09_dropped_fields_bernoulli :
-    dropped .bernoulli = ["temperature", "use_real_sigmoid"] := by decide
-theorem C09_dropped_fields_binary :
-    dropped .binary = ["scale_axis", "elements_per_scale", "min_po2_exponent",
-      "max_po2_exponent"] := by decide
-theorem C09_dropped_fields_quantized_relu :
-    dropped .quantized_relu = ["is_quantized_clip", "var_name", "use_ste", "use_variables"] := by
-  decide
-theorem C09_dropped_fields_quantized_po2 :
-    dropped .quantized_po2 = ["var_name", "use_ste", "use_variables"] := by decide
-theorem C09_dropped_fields_quantized_relu_po2 :
-    dropped .quantized_relu_po2 = ["var_name", "use_ste", "use_variables"] := by decide
-theorem C09_dropped_fields_quantized_hswish :
-    dropped .quantized_hswish = ["scale_axis", "var_name", "use_variables"] := by decide
-/-- the other six classes serialise every constructor argument -/
-theorem C09_dropped_fields_none (c : Cls)
-    (h : c ∈ [Cls.ternary, .stochastic_ternary, .stochastic_binary, .quantized_ulaw,
-              .quantized_tanh, .quantized_sigmoid]) : dropped c = [] := by
-  simp only [List.mem_cons, List.mem_nil_iff, or_false] at h
-  rcases h with rfl | rfl | rfl | rfl | rfl | rfl <;> decide
-
-/-! ## counterexamples: one witness per (class, forgotten option that `__call__` reads) -/
-
-/-- constructing `cls(k = v)` and rebuilding it from its own config succeeds but yields a
-    different stored value for `k` -/
-def DropsField (c : Cls) (k : String) (v : PyVal) (extra : Env := []) : Prop :=
-  ∃ q q', construct c [] ((k, v) :: extra) = .ok q ∧ rebuildDirect q = .ok q' ∧ q'.get k ≠ q.get k
-
-private def dropsFieldB (c : Cls) (k : String) (v : PyVal) (extra : Env) : Bool :=
+private def keepsFieldB (c : Cls) (k : String) (v : PyVal) (extra : Env) : Bool :=
   match construct c [] ((k, v) :: extra) with
-  | .ok q => (match fromConfig q.cls (getConfig q) with
-              | .ok q' => q'.get k != q.get k
-              | .error _ => false)
+  | .ok q => decide (q.get k = v) && decide (fromConfig q.cls (getConfig q) = .ok q)
   | .error _ => false
 
-private theorem dropsField_of_eval {c : Cls} {k : String} {v : PyVal} {extra : Env}
-    (h : dropsFieldB c k v extra = true) : DropsField c k v extra := by
-  unfold dropsFieldB at h
+private theorem keepsField_of_eval {c : Cls} {k : String} {v : PyVal} {extra : Env}
+    (h : keepsFieldB c k v extra = true) : KeepsField c k v extra := by
+  unfold keepsFieldB at h
+  split at h
+  · rename_i q hq
+    simp only [Bool.and_eq_true, decide_eq_true_eq] at h
+    exact ⟨q, hq, h.1, h.2, (C09_serialize_dict q).trans h.2⟩
+  · cases h
+
+theorem C09_dropped_field_fixed_witness_quantized_bits_scale_axis :
+    KeepsField .quantized_bits "scale_axis" (.int 0) [("alpha", .str "auto")] :=
+  keepsField_of_eval (by decide +kernel)
+theorem C09_dropped_field_fixed_witness_quantized_bits_scale_axis_list :
+    KeepsField .quantized_bits "scale_axis" (.list [.int 0, .int 1]) [("alpha", .str "auto")] :=
+  keepsField_of_eval (by decide +kernel)
+theorem C09_dropped_field_fixed_witness_quantized_bits_use_ste :
+    KeepsField .quantized_bits "use_ste" (.bool false) := keepsField_of_eval (by decide +kernel)
+theorem C09_dropped_field_fixed_witness_quantized_bits_elements_per_scale :
+    KeepsField .quantized_bits "elements_per_scale" (.int 2)
+      [("alpha", .str "auto_po2"), ("scale_axis", .int 1)] := keepsField_of_eval (by decide +kernel)
+theorem C09_dropped_field_fixed_witness_quantized_bits_min_po2_exponent :
+    KeepsField .quantized_bits "min_po2_exponent" (.int 1) [("alpha", .str "auto_po2")] :=
+  keepsField_of_eval (by decide +kernel)
+theorem C09_dropped_field_fixed_witness_quantized_bits_max_po2_exponent :
+    KeepsField .quantized_bits "max_po2_exponent" (.int (-2)) [("alpha", .str "auto_po2")] :=
+  keepsField_of_eval (by decide +kernel)
+theorem C09_dropped_field_fixed_witness_quantized_linear_scale_axis :
+    KeepsField .quantized_linear "scale_axis" (.int 0) [("alpha", .str "auto")] :=
+  keepsField_of_eval (by decide +kernel)
+theorem C09_dropped_field_fixed_witness_binary_scale_axis :
+    KeepsField .binary "scale_axis" (.int 0) [("alpha", .str "auto")] :=
+  keepsField_of_eval (by decide +kernel)
+theorem C09_dropped_field_fixed_witness_binary_elements_per_scale :
+    KeepsField .binary "elements_per_scale" (.list [.int 2, .int 3])
+      [("alpha", .str "auto_po2"), ("scale_axis", .list [.int 0, .int 1])] :=
+  keepsField_of_eval (by decide +kernel)
+theorem C09_dropped_field_fixed_witness_binary_min_po2_exponent :
+    KeepsField .binary "min_po2_exponent" (.int 1) [("alpha", .str "auto_po2")] :=
+  keepsField_of_eval (by decide +kernel)
+theorem C09_dropped_field_fixed_witness_binary_max_po2_exponent :
+    KeepsField .binary "max_po2_exponent" (.int (-2)) [("alpha", .str "auto_po2")] :=
+  keepsField_of_eval (by decide +kernel)
+theorem C09_dropped_field_fixed_witness_quantized_relu_is_quantized_clip :
+    KeepsField .quantized_relu "is_quantized_clip" (.bool false)
+      [("relu_upper_bound", .float (3 / 2))] := keepsField_of_eval (by decide +kernel)
+theorem C09_dropped_field_fixed_witness_quantized_relu_use_ste :
+    KeepsField .quantized_relu "use_ste" (.bool false) := keepsField_of_eval (by decide +kernel)
+theorem C09_dropped_field_fixed_witness_bernoulli_temperature :
+    KeepsField .bernoulli "temperature" (.float 1) := keepsField_of_eval (by decide +kernel)
+theorem C09_dropped_field_fixed_witness_bernoulli_use_real_sigmoid :
+    KeepsField .bernoulli "use_real_sigmoid" (.bool false) := keepsField_of_eval (by decide +kernel)
+theorem C09_dropped_field_fixed_witness_quantized_po2_use_ste :
+    KeepsField .quantized_po2 "use_ste" (.bool false) := keepsField_of_eval (by decide +kernel)
+theorem C09_dropped_field_fixed_witness_quantized_relu_po2_use_ste :
+    KeepsField .quantized_relu_po2 "use_ste" (.bool false) := keepsField_of_eval (by decide +kernel)
+
+/-- `quantized_hswish`: `from_config(get_config())` used to raise `TypeError` for EVERY instance
+    (inherited `keep_negative` / `post_training_scale` keys); the default instance and
+    `quantized_hswish(scale_axis=0, alpha="auto", relu_shift=2)` now rebuild as equal instances
+    (`C09_rebuild_succeeds` / `C09_same_function` cover every instance) -/
+theorem C09_hswish_from_config_fixed_witness :
+    (∃ q, construct .quantized_hswish [] [] = .ok q ∧ rebuildDirect q = .ok q ∧
+        rebuildViaGetQuantizer q = .ok q) ∧
+      KeepsField .quantized_hswish "scale_axis" (.int 0)
+        [("alpha", .str "auto"), ("relu_shift", .int 2)] := by
+  refine ⟨?_, keepsField_of_eval (by decide +kernel)⟩
+  have h : (match construct .quantized_hswish [] [] with
+      | .ok q => decide (fromConfig q.cls (getConfig q) = .ok q)
+      | .error _ => false) = true := by decide +kernel
+  split at h
+  · rename_i q hq
+    have h' := of_decide_eq_true h
+    exact ⟨q, hq, h', (C09_serialize_dict q).trans h'⟩
+  · cases h
+
+/-- what is still not restored, concretely: `quantized_bits(use_variables=True)` comes back with
+    `use_variables=False` (the reason `C09_same_instance_partial` keeps its hypothesis) -/
+theorem C09_build_only_not_restored_witness :
+    ∃ q q', construct .quantized_bits [] [("use_variables", .bool true)] = .ok q ∧
+      rebuildDirect q = .ok q' ∧ q'.get "use_variables" = .bool false ∧
+      q.get "use_variables" = .bool true := by
+  have h : (match construct .quantized_bits [] [("use_variables", .bool true)] with
+      | .ok q => (match fromConfig q.cls (getConfig q) with
+                  | .ok q' => decide (q'.get "use_variables" = .bool false) &&
+                              decide (q.get "use_variables" = .bool true)
+                  | .error _ => false)
+      | .error _ => false) = true := by decide +kernel
   split at h
   · rename_i q hq
     split at h
     · rename_i q' hq'
-      exact ⟨q, q', hq, hq', by simpa using h⟩
+      simp only [Bool.and_eq_true, decide_eq_true_eq] at h
+      exact ⟨q, q', hq, hq', h.1, h.2⟩
     · cases h
   · cases h
-
-theorem C09_dropped_field_counterexample_quantized_bits_scale_axis :
-    DropsField .quantized_bits "scale_axis" (.int 0) [("alpha", .str "auto")] :=
-  dropsField_of_eval (by decide +kernel)
-theorem C09_dropped_field_counterexample_quantized_bits_use_ste :
-    DropsField .quantized_bits "use_ste" (.bool false) := dropsField_of_eval (by decide +kernel)
-theorem C09_dropped_field_counterexample_quantized_bits_elements_per_scale :
-    DropsField .quantized_bits "elements_per_scale" (.int 2)
-      [("alpha", .str "auto_po2"), ("scale_axis", .int 1)] := dropsField_of_eval (by decide +kernel)
-theorem C09_dropped_field_counterexample_quantized_bits_min_po2_exponent :
-    DropsField .quantized_bits "min_po2_exponent" (.int 1) [("alpha", .str "auto_po2")] :=
-  dropsField_of_eval (by decide +kernel)
-theorem C09_dropped_field_counterexample_quantized_bits_max_po2_exponent :
-    DropsField .quantized_bits "max_po2_exponent" (.int (-2)) [("alpha", .str "auto_po2")] :=
-  dropsField_of_eval (by decide +kernel)
-theorem C09_dropped_field_counterexample_quantized_linear_scale_axis :
-    DropsField .quantized_linear "scale_axis" (.int 0) [("alpha", .str "auto")] :=
-  dropsField_of_eval (by decide +kernel)
-theorem C09_dropped_field_counterexample_binary_scale_axis :
-    DropsField .binary "scale_axis" (.int 0) [("alpha", .str "auto")] :=
-  dropsField_of_eval (by decide +kernel)
-theorem C09_dropped_field_counterexample_binary_elements_per_scale :
-    DropsField .binary "elements_per_scale" (.int 2)
-      [("alpha", .str "auto_po2"), ("scale_axis", .int 1)] := dropsField_of_eval (by decide +kernel)
-theorem C09_dropped_field_counterexample_binary_min_po2_exponent :
-    DropsField .binary "min_po2_exponent" (.int 1) [("alpha", .str "auto_po2")] :=
-  dropsField_of_eval (by decide +kernel)
-theorem C09_dropped_field_counterexample_binary_max_po2_exponent :
-    DropsField .binary "max_po2_exponent" (.int (-2)) [("alpha", .str "auto_po2")] :=
-  dropsField_of_eval (by decide +kernel)
-theorem C09_dropped_field_counterexample_quantized_relu_is_quantized_clip :
-    DropsField .quantized_relu "is_quantized_clip" (.bool false)
-      [("relu_upper_bound", .float (3 / 2))] := dropsField_of_eval (by decide +kernel)
-theorem C09_dropped_field_counterexample_quantized_relu_use_ste :
-    DropsField .quantized_relu "use_ste" (.bool false) := dropsField_of_eval (by decide +kernel)
-theorem C09_dropped_field_counterexample_bernoulli_temperature :
-    DropsField .bernoulli "temperature" (.float 1) := dropsField_of_eval (by decide +kernel)
-theorem C09_dropped_field_counterexample_bernoulli_use_real_sigmoid :
-    DropsField .bernoulli "use_real_sigmoid" (.bool false) := dropsField_of_eval (by decide +kernel)
-theorem C09_dropped_field_counterexample_quantized_po2_use_ste :
-    DropsField .quantized_po2 "use_ste" (.bool false) := dropsField_of_eval (by decide +kernel)
-theorem C09_dropped_field_counterexample_quantized_relu_po2_use_ste :
-    DropsField .quantized_relu_po2 "use_ste" (.bool false) := dropsField_of_eval (by decide +kernel)
 
 /-! ## non-vacuity -/
 
 private def roundTripsB (c : Cls) (args : List PyVal) (kw : Env) : Bool :=
   match construct c args kw with
-  | .ok q => decide (q.cls ≠ .quantized_hswish) && decide (∀ k ∈ dropped q.cls, q.get k = defaultOf q.cls k)
+  | .ok q => decide (∀ k ∈ dropped q.cls, q.get k = defaultOf q.cls k)
              && decide (fromConfig q.cls (getConfig q) = .ok q)
   | .error _ => false
 
 private theorem hyps_of_eval {c : Cls} {args : List PyVal} {kw : Env}
     (h : roundTripsB c args kw = true) :
-    ∃ q, Reachable q ∧ q.cls ≠ .quantized_hswish ∧ Serializable q ∧ rebuildDirect q = .ok q := by
+    ∃ q, Reachable q ∧ q.cls = c ∧ Serializable q ∧ rebuildDirect q = .ok q := by
   unfold roundTripsB at h
   split at h
   · rename_i q hq
     simp only [Bool.and_eq_true, decide_eq_true_eq] at h
     have hc : q.cls = c := (construct_fixed hq).1
-    exact ⟨q, ⟨args, kw, hc ▸ hq⟩, h.1.1, h.1.2, h.2⟩
+    exact ⟨q, ⟨args, kw, hc ▸ hq⟩, hc, h.1, h.2⟩
   · cases h
 
 /-- `quantized_bits(4, 1, alpha="auto")` satisfies every hypothesis of
-    `C09_same_function_partial` (and is non-trivial: `symmetric` was normalised to True) -/
-example : ∃ q, Reachable q ∧ q.cls ≠ .quantized_hswish ∧ Serializable q ∧ rebuildDirect q = .ok q :=
+    `C09_same_instance_partial` (and is non-trivial: `symmetric` was normalised to True) -/
+example : ∃ q, Reachable q ∧ q.cls = .quantized_bits ∧ Serializable q ∧ rebuildDirect q = .ok q :=
   hyps_of_eval (c := .quantized_bits) (args := [.int 4, .int 1]) (kw := [("alpha", .str "auto")])
     (by decide +kernel)
 
-/-- the default instance of every class but hswish satisfies all hypotheses -/
-example (c : Cls) (hc : c ≠ .quantized_hswish) :
-    ∃ q, Reachable q ∧ q.cls ≠ .quantized_hswish ∧ Serializable q ∧ rebuildDirect q = .ok q := by
-  have h : roundTripsB c [] [] = true := by
-    cases c <;> first
-      | exact absurd rfl hc
-      | decide +kernel
+/-- the default instance of every class (hswish included) satisfies all hypotheses -/
+example (c : Cls) : ∃ q, Reachable q ∧ q.cls = c ∧ Serializable q ∧ rebuildDirect q = .ok q := by
+  have h : roundTripsB c [] [] = true := by cases c <;> decide +kernel
   exact hyps_of_eval h
 
-/-- a `quantized_hswish` instance exists, so `C09_hswish_from_config_error` is not vacuous -/
-example : ∃ q, Reachable q ∧ q.cls = .quantized_hswish := by
-  have h : ∃ q, construct .quantized_hswish [] [] = .ok q :=
-    ⟨_, show construct .quantized_hswish [] [] = .ok ⟨.quantized_hswish, _⟩ from rfl⟩
-  obtain ⟨q, hq⟩ := h
-  have hc := (construct_fixed hq).1
-  exact ⟨q, ⟨[], [], hc ▸ hq⟩, hc⟩
+/-- `IgnoresBuildOnly` is satisfiable by functions that do read options: e.g. the pair
+    (class, `scale_axis`) — and fails for a function that reads `use_variables` -/
+example : IgnoresBuildOnly (fun q : Q => (q.cls, q.get "scale_axis")) := by
+  intro a b hc h
+  simp only [hc, h "scale_axis" (by decide)]
 
 end QKV.Props.C09
